@@ -57,7 +57,8 @@ def mutations(hx, rng, budget):
             out.append(('widen32', j(bs[:i] + ['82', bs[i], '00', '00', '00'] + bs[i + 1:])))
             out.append(('widen64', j(bs[:i] + ['83', bs[i]] + ['00'] * 7 + bs[i + 1:])))
             out.append(('swiden', j(bs[:i] + ['84', bs[i]] + bs[i + 1:])))
-            for big in (2 ** 64 - 1, 2 ** 63, 2 ** 32, 2 ** 32 - 1, b + 1, 65536):
+            # also counts that equal the original modulo 2^8 / 2^16 / 2^32 (a narrowed count would pass a length check)
+            for big in (2 ** 64 - 1, 2 ** 63, 2 ** 32, 2 ** 32 - 1, b + 1, 65536, 2 ** 32 + b, 3 * 2 ** 32 + b, 2 ** 16 + b, 2 ** 8 + b, 2 ** 63 + b):
                 out.append(('inflate', j(bs[:i] + ['83', le(big, 8)] + bs[i + 1:])))
             out.append(('inc', j(bs[:i] + ['%02x' % ((b + 1) & 127)] + bs[i + 1:])))
             if b:
